@@ -114,6 +114,18 @@ BodyFails(o) == BodyRefFails(o.body) \/ (BodyMedia(o.body) # <<>> /\ \A k \in 1.
 PathFails(o) == LET pp == {a \in Effective(o) : a[2] = "path"} IN ~((o.pathvar /\ pp = {<<"id", "path">>}) \/ (~o.pathvar /\ pp = {}))
 ShouldFail(o) == ListFails(o.ps, {}) \/ BodyFails(o) \/ ListFails(o.pips, OpKeys(o.ps)) \/ PathFails(o)
 
+\* P5 reference transparency (declarative): writing a reusable parameter / request body / response inline at the point of use
+\* changes nothing about what must be generated
+InlineP(p) == IF p.how = "ref" THEN [p EXCEPT !.how = "ok"] ELSE p
+InlineB(b) == IF b \in {"ref", "refchain"} THEN "json" ELSE b
+InlineR(r) == IF r.how = "ref" THEN [r EXCEPT !.how = "model"] ELSE r
+Inline(o) == [ps |-> [k \in 1..Len(o.ps) |-> InlineP(o.ps[k])], pips |-> [k \in 1..Len(o.pips) |-> InlineP(o.pips[k])],
+              body |-> InlineB(o.body), rs |-> [k \in 1..Len(o.rs) |-> InlineR(o.rs[k])], pathvar |-> o.pathvar]
+RefTransparent == /\ ShouldFail(op) <=> ShouldFail(Inline(op))
+                  /\ Effective(op) = Effective(Inline(op))
+                  /\ {op.rs[k].key : k \in {j \in 1..Len(op.rs) : RespHandled(op.rs[j])}}
+                       = {Inline(op).rs[k].key : k \in {j \in 1..Len(op.rs) : RespHandled(Inline(op).rs[j])}}
+                  /\ {BodyMedia(op.body)[k][2] : k \in 1..Len(BodyMedia(op.body))} = {BodyMedia(InlineB(op.body))[k][2] : k \in 1..Len(BodyMedia(InlineB(op.body)))}
 Finished == stage \in {"done", "error"}
 \* O2 census: the operation is generated or fails (then the diagnostic names it); every documented status and every
 \* request media type of a generated operation is handled or named in a warning
